@@ -106,6 +106,44 @@ def family_docs():
     return out
 
 
+def deep_doc(pad):
+    """Tokens of every kind deep inside a large document: comment filler up to about 3000 characters before the
+    offsets at which the scan buffer has filled up for the first and the second time (128 Ki, 256 Ki), then short
+    items in every presentation for 9000 characters; `pad` comment characters in front slide every token boundary
+    across those offsets.  The amount of comment is the only thing that varies: the content denoted does not."""
+    out = ['#\\#CIF_2.0\ndata_deep\n']
+    n = len(out[0]) + 2
+    left = pad
+    while True:
+        m = min(left, 1500)
+        out.append('#' + 'p' * m + '\n')
+        left -= m
+        if left <= 0:
+            break
+    entries = []
+    k = 0
+    for target in (131072, 262144):
+        while n < target - 3000:
+            m = min(1000, target - 3000 - n)
+            line = '#' + 'f' * max(m - 2, 0) + '\n'
+            out.append(line)
+            n += len(line)
+        while n < target + 6000:
+            u = ("_a%04d\n;text %04d\nsecond line\n;\n_b%04d \"\"\"tq %04d\nmore\"\"\" _c%04d 'q %04d' _d%04d [x%04d {'k':v%04d}] _e%04d e%04d\n"
+                 % (k, k, k, k, k, k, k, k, k, k, k))
+            out.append(u)
+            n += len(u)
+            entries += [('item', '_a%04d' % k, ('char', 'text %04d\nsecond line' % k, True)),
+                        ('item', '_b%04d' % k, ('char', 'tq %04d\nmore' % k, True)),
+                        ('item', '_c%04d' % k, ('char', 'q %04d' % k, True)),
+                        ('item', '_d%04d' % k, ('list', (('char', 'x%04d' % k, False), ('table', (('k', ('char', 'v%04d' % k, False)),))))),
+                        ('item', '_e%04d' % k, ('char', 'e%04d' % k, False))]
+            k += 1
+    out.append('_last_item done\n')
+    entries.append(('item', '_last_item', ('char', 'done', False)))
+    return ''.join(out), [{'code': 'deep', 'entries': entries}]
+
+
 def check_document(ctx, L, label, doc, text, version, info, opts=None):
     data = text.encode('utf-8')
     res = parsing.parse(L, data, opts or parsing.make_opts(), 'new', 'accept')
@@ -139,7 +177,8 @@ def worker(ctx):
     fam = family_docs()
     nfam = len(fam)
     nrand = ctx.params['random_docs']
-    total = nfam + nrand
+    ndeep = ctx.params['deep_docs']
+    total = nfam + nrand + ndeep
     if ctx.params.get('_single') is not None:
         ctx.single = ctx.params['_single']
     scope = LedgerScope(L).__enter__()
@@ -155,6 +194,17 @@ def worker(ctx):
                 w.forced = list(forced)
             w.fixed_sep = sep
             text = w.document(doc)
+        elif i >= nfam + nrand:
+            j = i - nfam - nrand
+            pad = j if j < 128 else (j - 128) * 37 % 4096
+            version = 2
+            label = 'deep:%s' % ('lf', 'crlf', 'cr')[j % 3]
+            text, doc = deep_doc(pad)
+            if j % 3:
+                from .C08 import restyle
+                text = restyle(text, ('lf', 'crlf', 'cr')[j % 3], rng)
+            w = GC.Writer(rng, 2)
+            ctx.count('deep_documents')
         else:
             version = 1 if (i % 5 == 0) else 2
             label = 'random:v%d' % version
@@ -190,8 +240,9 @@ def worker(ctx):
 def run(env):
     nrand = 8000 if env.quick else 150000
     nfam = len(family_docs())
-    res = env.run_pool(MODULE, dict(random_docs=nrand), nshards=16)
-    total = nfam + nrand
+    ndeep = 192 if env.quick else 1536
+    res = env.run_pool(MODULE, dict(random_docs=nrand, deep_docs=ndeep), nshards=16)
+    total = nfam + nrand + ndeep
     inconclusive = list(res.inconclusive)
     if res.count('documents') < total and not res.violations:
         inconclusive.append('only %d of %d documents ran' % (res.count('documents'), total))
@@ -205,6 +256,7 @@ def run(env):
                  'non-trivial = parsed without any error report, returned CIF_OK and its dump equalled the abstract '
                  'content it was written from',
             samples=res.samples, enumerated_family_documents=nfam, random_documents=nrand,
+            large_documents_with_tokens_at_scan_buffer_compaction_points=res.count('deep_documents'),
             presentations_written=pres, family_labels=len(res.sets.get('labels', ())), crashes=res.crashes),
         violations=res.violations, inconclusive=inconclusive,
         assumptions=['the independent writer (vp/gen_cif.py) implements the CIF 2.0 / 1.1 grammars correctly',
